@@ -227,12 +227,16 @@ def rname(fam, size, hi=False):
 class B(object):
     """builder for one mode"""
 
-    def __init__(self, mode):
+    def __init__(self, mode, thorough=False):
         self.mode = mode
+        self.thorough = thorough
         self.out = []
         self.seen = set()
+        self.t2 = False          # while set, templates are generated in the thorough tier only
 
-    def add(self, mn, form, text, slots, size, group, **kw):
+    def add(self, mn, form, text, slots, size, group, t2=False, **kw):
+        if (t2 or self.t2) and not self.thorough:
+            return
         if text in self.seen:
             return
         self.seen.add(text)
@@ -287,7 +291,7 @@ CC_ALIASES = {"B": ["C", "NAE"], "AE": ["NB", "NC"], "Z": ["E"], "NZ": ["NE"], "
 
 
 def build(mode, thorough=False):
-    b = B(mode)
+    b = B(mode, thorough)
     m = mode
     rsets = [r for r in (RS0, RS1, RS2, RS3, RS4) if m in r.modes]
 
@@ -332,12 +336,14 @@ def build(mode, thorough=False):
         grp = "logic" if mn in ("AND", "OR", "XOR") else "arith"
         two_op(mn, grp, b.sizes(), RS0, fl=fl)
         for rs in rsets[1:]:
+            b.t2 = rs in (RS1, RS3) and mn not in ("ADD", "SBB", "XOR", "CMP")
             if rs is RS4:
                 two_op(mn, grp, b.sizes(), rs, forms=("ri",), depth=0, fl=fl, imms=None)
             elif rs is RS1:
                 two_op(mn, grp, b.sizes(), rs, forms=("rr", "rm", "mr", "ri"), depth=0, fl=fl, imms=[0x80])
             else:
                 two_op(mn, grp, b.sizes(), rs, forms=("rr", "ri", "rm", "mr"), depth=0, fl=fl, imms=[0x80 if rs.hi else 0xFF])
+        b.t2 = False
         # same register twice
         for size in b.sizes():
             r = rname("B", size)
@@ -428,7 +434,8 @@ def build(mode, thorough=False):
                         continue
                     seen.add(iv)
                     b.add(mn, "r%d,%s" % (size, "1" if iv == 1 else "imm8"), "%s %s, 0x%X" % (mn, d, iv),
-                          [R(rs.dst, size, "dst", rs.hi, vals=dvals)], size, grp, imm=iv, flagsets=fl)
+                          [R(rs.dst, size, "dst", rs.hi, vals=dvals)], size, grp, imm=iv, flagsets=fl,
+                          t2=rs is RS1 and mn not in ("SHL", "RCR"))
                 b.add(mn, "r%d,cl" % size, "%s %s, CL" % (mn, d),
                       [R(rs.dst, size, "dst", rs.hi, vals=dvals), R("C", 8, "cnt", vclass="count")], size, grp,
                       flagsets=fl, depth=0 if lite else 1)
@@ -437,7 +444,8 @@ def build(mode, thorough=False):
                 mt, off, ptrs = b.mem(size, rs.base, 0x20)
                 for iv in (1, size - 1, 0x21):
                     b.add(mn, "m%d,%s" % (size, "1" if iv == 1 else "imm8"), "%s %s, 0x%X" % (mn, mt, iv),
-                          [M(off, size, "dst", vals=dvals)], size, grp, imm=iv, ptrs=ptrs, flagsets=fl)
+                          [M(off, size, "dst", vals=dvals)], size, grp, imm=iv, ptrs=ptrs, flagsets=fl,
+                          t2=rs is RS1)
                 b.add(mn, "m%d,cl" % size, "%s %s, CL" % (mn, mt),
                       [M(off, size, "dst", vals=dvals), R("C", 8, "cnt", vclass="count")], size, grp, ptrs=ptrs,
                       flagsets=fl, depth=0)
@@ -657,10 +665,10 @@ def build(mode, thorough=False):
                 d = rname("D", size)
                 b.add("MOV", "r%d,m%d[%s]" % (size, size, fn), "MOV %s, %s" % (d, mt),
                       [R("D", size, "dst", vals=[mask(size)]), M(off, size, "src", vals=[0x1122334455667788 & mask(size), 0])],
-                      size, "noflags", ptrs=ptrs)
+                      size, "noflags", ptrs=ptrs, t2=size == 8)
                 b.add("ADD", "m%d[%s],r%d" % (size, fn, size), "ADD %s, %s" % (mt, d),
                       [M(off, size, "dst", vals=[1, mask(size)]), R("D", size, "src", vals=[1, mask(size) >> 1])], size, "arith",
-                      ptrs=ptrs)
+                      ptrs=ptrs, t2=size != 32)
 
     # ---- string instructions -------------------------------------------------------------
     sfx = {8: "B", 16: "W", 32: "D", 64: "Q"}
@@ -695,6 +703,8 @@ def build(mode, thorough=False):
     def X(idx, name, vclass="vec", vals=None):
         return Slot(name, "xmm", 128, idx=idx, vclass=vclass, vals=vals)
 
+    # 32-bit mode runs the same sem.py code for SSE: quick tier keeps the memory forms and a few others there
+    b.t2 = (m == 32)
     vec2 = ["PADDB", "PADDW", "PADDD", "PADDQ", "PSUBB", "PSUBW", "PSUBD", "PSUBQ", "PAND", "PANDN", "POR", "PXOR",
             "PCMPEQB", "PCMPEQW", "PCMPEQD", "PCMPEQQ", "PCMPGTB", "PCMPGTW", "PCMPGTD", "PCMPGTQ",
             "PUNPCKLBW", "PUNPCKLWD", "PUNPCKLDQ", "PUNPCKLQDQ", "PUNPCKHBW", "PUNPCKHWD", "PUNPCKHDQ", "PUNPCKHQDQ",
@@ -709,11 +719,15 @@ def build(mode, thorough=False):
         moves = mn.startswith("MOV")
         b.add(mn, "x,x", "%s XMM1, XMM2" % mn, [X(1, "dst"), X(2, "src")], 128, "noflags", depth=0 if moves else 1)
         mt, off, ptrs = b.mem(128, "SI", 0x20)
+        keep = b.t2
+        b.t2 = False
         b.add(mn, "x,m128", "%s XMM1, %s" % (mn, mt), [X(1, "dst"), M(off, 128, "src", vclass="vec")], 128, "noflags",
               ptrs=ptrs, depth=0)
-        b.add(mn, "x,same", "%s XMM3, XMM3" % mn, [X(3, "dst")], 128, "noflags")
+        b.t2 = keep
+        b.add(mn, "x,same", "%s XMM3, XMM3" % mn, [X(3, "dst")], 128, "noflags", t2=mn not in ("PXOR", "PSUBB", "PCMPEQD", "PANDN", "PUNPCKLBW"))
         if m == 64:
-            b.add(mn, "x,x(rex)", "%s XMM9, XMM14" % mn, [X(9, "dst"), X(14, "src")], 128, "noflags", depth=0)
+            b.add(mn, "x,x(rex)", "%s XMM9, XMM14" % mn, [X(9, "dst"), X(14, "src")], 128, "noflags", depth=0,
+                  t2=mn not in ("PADDB", "PSHUFB", "MOVDQA", "PUNPCKHWD", "XORPS"))
         if moves:
             b.add(mn, "m128,x", "%s %s, XMM2" % (mn, mt), [M(off, 128, "dst", vclass="vec", vals=[0]), X(2, "src")], 128,
                   "noflags", ptrs=ptrs, depth=0)
@@ -769,10 +783,11 @@ def build(mode, thorough=False):
     for mn in ("PMOVMSKB", "MOVMSKPS", "MOVMSKPD"):
         b.add(mn, "r32,x", "%s EBX, XMM2" % mn, [R("B", m, "dst", vals=[mask(m)]), X(2, "src")], 128, "noflags")
 
+    b.t2 = False
     # ---- instructions that exist only outside long mode: judged against the SDM model ---------------
     if m == 32:
-        ahq = [0, 1, 0x7f, 0x80, 0xfe, 0xff, 0x55, 0x09]
-        ah = list(range(256)) if thorough else ahq
+        ahq = [0, 0xff, 0x7f, 0x09, 0x80, 0xfe, 0x55, 0x01]
+        ah = list(range(256)) if thorough else ahq[:4]
         al = list(range(256))
         b.add("AAA", "-", "AAA", [R("A", 8, "al", vals=al), R("A", 8, "ah", hi=True, vals=ah)], 8, "model", flagsets="afcf",
               model="aaa", cap=10 ** 9)
@@ -782,10 +797,10 @@ def build(mode, thorough=False):
               flagsets="afcf", model="daa", cap=10 ** 9)
         b.add("DAS", "-", "DAS", [R("A", 8, "al", vals=al), R("A", 8, "ah", hi=True, vals=[0x5a])], 8, "model",
               flagsets="afcf", model="das", cap=10 ** 9)
-        for iv in (0x0A, 0x01, 0x02, 0x10, 0xFF, 0x00, 0x07):
+        for iv in (0x0A, 0x10, 0xFF, 0x00, 0x07, 0x01, 0x02)[:7 if thorough else 5]:
             b.add("AAM", "imm8", "AAM 0x%X" % iv, [R("A", 8, "al", vals=al), R("A", 8, "ah", hi=True, vals=[0x5a, 0])], 8,
                   "model", flagsets="std", model="aam", imm=iv, cap=10 ** 9)
-            b.add("AAD", "imm8", "AAD 0x%X" % iv, [R("A", 8, "al", vals=al), R("A", 8, "ah", hi=True, vals=ah if iv == 0x0A else ahq[:6])],
+            b.add("AAD", "imm8", "AAD 0x%X" % iv, [R("A", 8, "al", vals=al), R("A", 8, "ah", hi=True, vals=ah if thorough and iv == 0x0A else ahq[:3])],
                   8, "model", flagsets="std", model="aad", imm=iv, cap=10 ** 9)
     return b.out
 
